@@ -10,7 +10,7 @@ LO, HI = -(M - 1), M - 1
 
 def run(tier, seed):
     V = common.Verdict("C18", tier, seed)
-    configs = ["K17"] if tier == "quick" else ["K17", "K20"]
+    configs = ["K17", "K20"] if tier == "quick" else ["K17", "K20"]
     x, r_ = sym(0), sym(1)
     for cfg in configs:
         try:
